@@ -9,7 +9,11 @@ RULE = ("one case = one generated table: schema of 1..24 fields over all 9 field
         "The harness's own WDBC encoder (4 string-block layouts: deduplicated, shuffled with unreferenced strings, duplicated copies, suffix-shared) writes the table; "
         "DbcParser eager (+ cached strings), LazyDbcParser iterator and indexed, MmapDbcFile (parser and lazy over the mapping), parse_records_parallel must each "
         "return the model's values (floats bitwise, strings as text) and agree pairwise; DbcWriter::write_records of a parsed set is re-parsed and compared with the "
-        "model, its size checked against 20 + n x record_size + string block and its string block walked for repeated strings; get_record_by_key and "
+        "model, its size checked against 20 + n x record_size + string block and its string block walked for repeated strings; once that single write is right the writer "
+        "is driven through longer histories on one stream (the same set twice on one DbcWriter; a smaller table of the same schema, then the full one; a stream that already "
+        "holds an older table with the position at its end / inside it; an empty stream positioned past its end; a read+write file first read by DbcParser::parse, then "
+        "rewritten through the same handle): the stream must start with the table written last and be exactly that long unless longer content was there before "
+        "(all six histories for tables up to 300 records, two of them for larger ones); get_record_by_key and "
         "create_sorted_key_map + get_record_by_key_binary_search are queried for every present key and ~100 absent keys on the eager, parallel, mmap and rewritten sets. "
         "quick = 7 + 300 tables, thorough = 7 + 10000 tables plus the first 1000 again under AddressSanitizer. distinct = distinct "
         "(record count, key position/type, arrays, narrow fields, strings, string-block layout) classes among tables with at least one record.")
@@ -20,6 +24,9 @@ ASSUME = ["header field count = number of columns with every array element count
           "with duplicate keys any record carrying the key is accepted",
           "path-vs-path comparison: eager against every other path element-wise, the remaining pairs through a 64-bit fingerprint of the full projection",
           "when the rewritten file is refused only because of its header field count, that field is repaired in a copy so records and strings are still compared (the refusal itself is reported)",
+          "writer histories: write_records is taken to (re)write the table at the start of the caller's stream (it seeks to 0 itself); it does not truncate, so content that was "
+          "longer than the new table stays behind it - the histories only use older tables that are not longer; a stream that differs byte-wise from a single write is still "
+          "accepted when it parses back to the model (counter writer_history_streams_equivalent_not_identical)",
           "Miri cannot execute mmap; the mmap path is exercised natively and, in the thorough tier, under ASan (leak detection off)"]
 
 ASAN_LIMIT = 1000
